@@ -10,11 +10,12 @@ CFG = dict(
           "the id, only the first envelope header-only, constant route: what C06_client gives - the envelopes of id i the server WRITES are accepted "
           "by proto_s2c: one optional header-only envelope first, bodies, at most one trailer with status, metadata only on the first envelope, only "
           "resets after the trailer / after a reset; invariant on what is handed to the writer per id + sv's writer accounting + closure of the "
-          "automaton under subsequences), C06_reset_order (no trailer of an id after a reset of it). Not proved, monitor only: the unary response "
+          "automaton under subsequences), C06_reset_order (no trailer of an id after a reset of it); C06_sys on the product model Sys.v (for every system run with conformant users, "
+          "both directions of every non-aborted stream call are accepted: the client's envelopes satisfy the server theorem's hypothesis). Not proved, monitor only: the unary response "
           "shape (needs a hypothesis on unary handler programs) and trailer presence (finding trailer-lost-on-handler-deadline; the model has no "
           "GRPC-Timeout). The client model is tied lock-step to the real client on every run (all orders of internal rules) and the "
           "automata judge every per-id per-direction projection of every wire history of the rigs (real client, real server, end to end).",
-    props="Props/C06.v", theorems=["C06_client", "C06_client_refuted", "C06_server_origin", "C06_server_stream", "C06_reset_order"],
+    props="Props/C06.v", theorems=["C06_client", "C06_client_refuted", "C06_server_origin", "C06_server_stream", "C06_reset_order", "C06_sys"],
     imports=["Model.Client", "Check.ClientC", "Model.Protocol", "Check.CwC", "Check.C06c"],
     case_type="cwcase", find_bad_from="find_bad_from", go_tags="cw",
     rigs=[dict(test="TestC06", timeout_quick=600, timeout_thorough=2400)],
